@@ -174,6 +174,32 @@ func buildVersion(v, perm int) *migProfile {
 			}
 		}
 	}
+	// a renamed error type that is itself a protobuf message: no decoder, the
+	// payload is the error. Checked right here under this version's
+	// registries: key, wire family, and a loop-back transfer.
+	if v == v2 {
+		errors.RegisterTypeMigration(gen.MigPkgPath, "*gen.FooProto", &gen.BarProto{})
+		pe := &gen.BarProto{Msg: "TKUprotoQ"}
+		wantKey := gen.MigPkgPath + "/*gen.FooProto"
+		if k := errors.GetTypeKey(pe); string(k) != wantKey {
+			mp.problems = append(mp.problems, Violation{Prop: "C17", Oracle: "key-of-newest-name", Culprit: "RegisterTypeMigration", Config: "proto-message type",
+				Expected: wantKey, Observed: string(k), Where: versionNames[v]})
+		}
+		if data, p := obs.Encode(pe); p == "" {
+			if enc, err := world.ParseWire(data); err == nil && enc.GetLeaf() != nil && enc.GetLeaf().Details.ErrorTypeMark.FamilyName != wantKey {
+				mp.problems = append(mp.problems, Violation{Prop: "C17", Oracle: "wire-family-is-original-name", Culprit: "encoder", Config: "form=proto-message",
+					Expected: wantKey, Observed: enc.GetLeaf().Details.ErrorTypeMark.FamilyName, Where: versionNames[v]})
+			}
+			dec, p2 := obs.Decode(data)
+			if _, ok := dec.(*gen.BarProto); !ok || p2 != "" {
+				mp.problems = append(mp.problems, Violation{Prop: "C17", Oracle: "decodes-to-current-type", Culprit: "decoder", Config: "receiver=" + versionNames[v] + " form=proto-message",
+					Expected: "*gen.BarProto", Observed: fmt.Sprintf("%T %s", dec, p2), Where: "loop-back transfer at " + versionNames[v]})
+			} else if obs.IsOne(dec, pe) != 'T' || obs.IsOne(pe, dec) != 'T' {
+				mp.problems = append(mp.problems, Violation{Prop: "C17", Oracle: "is-locally-built-equivalent", Culprit: "identity", Config: "receiver=" + versionNames[v] + " form=proto-message",
+					Expected: "TT", Observed: "not both", Where: "loop-back transfer at " + versionNames[v]})
+			}
+		}
+	}
 	// a pure package move: same type string, different import path
 	if v != v0 {
 		errors.RegisterTypeMigration("errsim/elsewhere", "gen.MovedLeaf", gen.MovedLeaf{})
